@@ -527,6 +527,48 @@ def attr_identity_rule(rep, rid="C13.g"):
            "the application changed is still treated as default content" % bad, "src/xercesc/dom/impl/DOMAttrImpl.cpp")
 
 
+def replace_self_rule(rep):
+    rep.rule("C13.h", "replacing an attribute by itself changes nothing: in DOMAttrMapImpl::setNamedItem / setNamedItemNS the node found "
+             "under the name is disowned (isOwned(false)) only under a test that it is not the argument itself, or the function has "
+             "already rejected an argument that is owned (INUSE_ATTRIBUTE_ERR thrown for any owned argument) — otherwise the "
+             "attribute stays in the map without an owner element and a second element can adopt it")
+    g = core.run_xa([os.path.join(core.REPO, "src/xercesc/dom/impl/DOMAttrMapImpl.cpp")], cfg=r"^DOMAttrMapImpl::setNamedItem(NS)?$", flat=False)
+    n = 0
+    for q in ("DOMAttrMapImpl::setNamedItem", "DOMAttrMapImpl::setNamedItemNS"):
+        cfg = guard.Cfg(g.cfg(q))
+        ss = guard.sites(cfg, lambda x: x[0] == "c" and x[1].split("::")[-1] == "isOwned" and x[3] == [["i", 0]])
+        if not ss:
+            raise AnalysisBroken("%s no longer disowns the replaced attribute" % q)
+        # an unconditional rejection of owned arguments: a throwing guard whose condition is just arg->isOwned()
+        strict = False
+        for bid, blk in cfg.blocks.items():
+            t = blk.get("term")
+            c = t and t.get("cond")
+            if c and c[0] == "c" and c[1].split("::")[-1] == "isOwned" and not c[3] and blk["succ"][0] is not None:
+                # the true edge (argument already owned) never reaches the disowning statement: it ends in the throw
+                seen, work = set(), [blk["succ"][0]]
+                while work:
+                    b = work.pop()
+                    if b in seen:
+                        continue
+                    seen.add(b)
+                    if not cfg.throws(b):
+                        work.extend(cfg.succs(b))
+                if not any(b2 in seen for b2, _, _ in ss):
+                    strict = True
+        for bid, i, el in ss:
+            n += 1
+            ok = strict
+            for cond, pol, _p in guard.controlling(cfg, bid):
+                if cond[0] == "b" and cond[1] == "!=" and pol and any(isinstance(y, list) and y and y[0] == "p" for side in (cond[2], cond[3]) for y in sx_walk(side)) \
+                        and cond[3] != ["i", 0] and cond[2] != ["i", 0]:
+                    ok = True
+            rep.ob("C13.h", "%s@disown" % q, ok, "the replaced node is disowned only when it is another node" if ok else
+                   "%s (line %s) disowns the node found under the name even when it is the argument itself: the attribute remains in "
+                   "the map with no owner element" % (q, el.get("l")), "src/xercesc/dom/impl/DOMAttrMapImpl.cpp:%s" % el.get("l", 0))
+    rep.floor("C13.h", n, 2)
+
+
 def run(rep):
     f = core.library_facts()
     rep.units.update(os.path.relpath(t, core.REPO) for t in f.tus)
@@ -536,6 +578,7 @@ def run(rep):
     hierarchy_rule(rep)
     supplementary_names_rule(rep)
     attr_identity_rule(rep)
+    replace_self_rule(rep)
     from ..engines import arrays
     arrays.soh_rule(rep, f, "C13.d", lambda fn: "/dom/impl/" in fn["file"])
     diag.run(rep, f, "C13")
